@@ -81,6 +81,8 @@ type seedSpace struct {
 	pairRefT []int
 	linkR    [][]site // reference sites under linkKeys, per layer
 	linkT    []int    // object numbers of the nodes of the linked structures (objects holding or receiving such a reference)
+	regInts  []site   // integer tokens of the cross-reference / trailer region (layer 0)
+	regRefs  []site   // references in that region
 }
 
 // group is a contiguous range of case indices.
@@ -100,6 +102,14 @@ type table struct {
 	dims   map[string]any
 
 	chainLen int // filter chains of length 1..chainLen
+
+	// xrefcraft.go
+	xg           *xrefGroups
+	xrefRefStart []int
+	pfxCraft     []craftCase
+
+	// lengthwire.go
+	lenWires []lenWire
 }
 
 // Mut identifies a mutant (JSON-able; informational in replays, the mutated file itself is stored too).
@@ -331,6 +341,17 @@ func buildTable(seeds []*Seed, thorough bool) (*table, error) {
 		t.chainLen = 4
 	}
 	t.groups = append(t.groups, group{seed: -1, kind: "craft-filters", n: chainCount(t.chainLen) * len(chainPayloadNames)})
+	// crafted /Length wirings (lengthwire.go)
+	t.lenWires = lenWireCases(thorough)
+	t.groups = append(t.groups, group{seed: -1, kind: "len-wire", n: len(t.lenWires)})
+	t.dims["length_wiring_targets"] = append(append([]string{}, lwTargetNames...), "node j (any j, itself included)")
+	t.dims["length_wiring_places"] = lwPlaceNames
+	t.dims["length_wiring_space"] = "holders S1, S2 (object streams) and n stream nodes; every assignment for n = 1 and n = 2; thorough n = 3: every assignment of the nodes (object streams direct)"
+	// crafted cross-reference level structures (xrefcraft.go); cheap, and early in the
+	// table so that a capped run on a slow machine has still explored them
+	if err := t.addXrefCrafted(thorough); err != nil {
+		return nil, err
+	}
 	for si, s := range seeds {
 		m, err := buildModel(s)
 		if err != nil {
@@ -390,6 +411,8 @@ func buildTable(seeds []*Seed, thorough bool) (*table, error) {
 			}
 		}
 	}
+	// bytes before the header (xrefcraft.go)
+	t.addPrefixGroups(thorough)
 	if only := os.Getenv("C05_ONLY"); only != "" {
 		var keep []group
 		for _, g := range t.groups {
@@ -489,7 +512,17 @@ func unpair(k, n int) (int, int) {
 func (t *table) mutant(idx int) (data []byte, mu Mut, trivial bool, err error) {
 	g, k := t.locate(idx)
 	if g.seed < 0 {
+		if strings.HasPrefix(g.kind, "xref-") || g.kind == "pfx-craft" {
+			return t.xrefCrafted(g, k)
+		}
+		if g.kind == "len-wire" {
+			c := t.lenWires[k]
+			return c.build(), Mut{Seed: "crafted", Kind: g.kind, Index: k, Desc: "crafted: " + c.String()}, false, nil
+		}
 		return t.crafted(g, k)
+	}
+	if strings.HasPrefix(g.kind, "pfx-") {
+		return t.pfxMutant(g, k)
 	}
 	sp := t.spaces[g.seed]
 	m := sp.m
